@@ -213,6 +213,9 @@ def _pit_row_names(net, kind, pit):
         k = cnt.get((tname, e), 0)
         cnt[(tname, e)] = k + 1
         names.append("%s:%s:%d" % (tname, e, k))
+    nmap = getattr(CTX, "name_map", None)
+    if nmap:
+        names = [nmap.get(n, n) for n in names]
     return names
 
 
@@ -254,7 +257,13 @@ def _havoc(net, mode):
         stages = ("hyd",) if mode == "hydraulics" else ("heat",)
     hm = CTX.havoc_map
     tag = getattr(CTX, "sym_tag", "")
-    real = getattr(CTX, "havoc_value", None) or globals()["real"]
+    _base = getattr(CTX, "havoc_value", None) or globals()["real"]
+    _xf = getattr(CTX, "havoc_xform", None)
+    _kind = [None]
+
+    def real(nm):
+        v = _base(nm)
+        return _xf(nm, v) if _xf is not None else v
     for st in stages:
         if st == "hyd":
             for i, name in enumerate(nn):
@@ -356,6 +365,9 @@ def install(numba_pyfunc=False, force_verdict=True, symbolic_constants=True):
     CTX.ident = {}
     CTX.sym_tag = ""
     CTX.pre_solve_hook = None
+    CTX.havoc_xform = None
+    CTX.x_xform = None
+    CTX.name_map = None
     return patched, ass
 
 
